@@ -17,7 +17,7 @@ use std::collections::BTreeMap;
 pub fn meta() -> Meta {
     Meta {
         level: "model_checking",
-        rule: "every well-formed history of at most L operations over {declare int x, declare const x, declare qubit x, declare int x = y, use x, for x in [0:y], if (x == 1), while (x == 1), assign x, gate-call x, open if / else / while / for x / case / default / gate(x) / def(x), close} for x in a two-name pool (four pools: user names; pi and the library gate h; the built-in gate U; non-ASCII names), rendered as a program and analysed by the real front end; every symbol reference of the graph is compared with the reference scope stack; states = distinct reference scope stacks reached, transitions = distinct (state, operation) pairs, traces = histories executed; a history is non-trivial when some use resolves through at least two open scopes or to a shadowing declaration, or is a duplicate declaration",
+        rule: "every well-formed history of at most L operations over {declare int x, declare const x, declare qubit x, declare int x = y, use x, for x in [0:y], if (x == 1), while (x == 1), a declaration as brace-less body of if / else / while / for, assign x, gate-call x, open if / else / while / for x / case / default / gate(x) / def(x), close} for x in a two-name pool (four pools: user names; pi and the library gate h; the built-in gate U; non-ASCII names), rendered as a program and analysed by the real front end; every symbol reference of the graph is compared with the reference scope stack; states = distinct reference scope stacks reached, transitions = distinct (state, operation) pairs, traces = histories executed; a history is non-trivial when some use resolves through at least two open scopes or to a shadowing declaration, or is a duplicate declaration",
         assumptions: vec![
             "the generator never redeclares a for-loop variable directly in its own loop body and never uses a gate/subroutine name inside its own body (the statement does not fix these cases); gate/def parameters and body are one scope",
             "hook oq3_verif: scope depth accessor",
@@ -42,6 +42,9 @@ pub enum Op {
     While,
     /// `while (x == 1) {`
     WhileUse(u8),
+    /// a declaration as the brace-less body of a compound statement (0: if, 1: else of an empty
+    /// if, 2: while, 3: for): `while (true) int x;` — declared in a scope of its own
+    BodyDecl(u8, u8),
     For(u8),
     /// `for int x in [0:y] {` — the iterable is a use that is resolved outside the loop scope
     ForIn(u8, u8),
@@ -52,7 +55,7 @@ pub enum Op {
     Close,
 }
 
-pub const OPS: [Op; 30] = [
+pub const OPS: [Op; 34] = [
     Op::DeclInt(0),
     Op::DeclInt(1),
     Op::DeclConst(0),
@@ -77,15 +80,19 @@ pub const OPS: [Op; 30] = [
     Op::ForIn(0, 0),
     Op::ForIn(0, 1),
     Op::ForIn(1, 0),
+    Op::BodyDecl(2, 0),
+    Op::BodyDecl(0, 1),
     Op::DeclConst(1),
     Op::CallGate(0),
     Op::Assign(1),
     Op::IfUse(0),
     Op::WhileUse(1),
     Op::IfUse(1),
+    Op::BodyDecl(1, 0),
+    Op::BodyDecl(3, 1),
 ];
-/// the first 24 operations are the quick alphabet; the thorough tier uses all 30
-pub const N_QUICK_OPS: usize = 24;
+/// the first 26 operations are the quick alphabet; the thorough tier uses all 34
+pub const N_QUICK_OPS: usize = 26;
 
 fn op_name(op: Op, names: &[&str; 2]) -> String {
     match op {
@@ -96,6 +103,7 @@ fn op_name(op: Op, names: &[&str; 2]) -> String {
         Op::Use(n) => format!("use:{}", names[n as usize]),
         Op::Assign(n) => format!("assign:{}", names[n as usize]),
         Op::CallGate(n) => format!("call:{}", names[n as usize]),
+        Op::BodyDecl(k, n) => format!("{}-body int:{}", ["if", "else", "while", "for"][k as usize], names[n as usize]),
         Op::If => "if".into(),
         Op::IfUse(n) => format!("if?{}", names[n as usize]),
         Op::WhileUse(n) => format!("while?{}", names[n as usize]),
@@ -282,6 +290,26 @@ pub fn render(hist: &[Op], family: usize) -> Option<Rendered> {
                 text.push_str("if (true) {\n");
                 frames.push((Frame::If, vec![]));
                 scopes.push(BTreeMap::new());
+            }
+            Op::BodyDecl(k, n) => {
+                // the single statement is the whole body: declared in a scope that closes at once
+                let pre = match k {
+                    0 => "if (true) int ",
+                    1 => "if (true) { } else int ",
+                    2 => "while (true) int ",
+                    _ => "for int zz in [0:1] int ",
+                };
+                scopes.push(BTreeMap::new());
+                if k == 3 {
+                    // the loop variable lives in the same scope
+                    let at = text.len() + "for int ".len();
+                    let idx = events.len();
+                    scopes.last_mut().unwrap().insert("zz".into(), Target::Event(idx));
+                    events.push(Expect { name: "zz".into(), range: (at, at + 2), is_decl: true, target: Some(Target::Event(idx)), gate_use: false, typed: false, deep: false });
+                }
+                decl(&mut text, &mut events, &mut scopes, names[n as usize], pre, ";\n", &mut nontrivial);
+                scopes.pop();
+                nontrivial = true;
             }
             Op::IfUse(n) | Op::WhileUse(n) => {
                 let name = names[n as usize];
